@@ -190,10 +190,26 @@ def crossings(orb, ep):
     return lo + idx + (-z[idx] / (z[idx + 1] - z[idx]))
 
 
-def expected_count(tc, s):
+def expected_count(tc, s, pivot=0.0):
     if s >= 0:
-        return int(np.sum((tc > 0) & (tc <= s)))
-    return -int(np.sum((tc <= 0) & (tc > s)))
+        return int(np.sum((tc > pivot) & (tc <= s)))
+    return -int(np.sum((tc <= pivot) & (tc > s)))
+
+
+def expected_counts(tc, s):
+    """the signed count(s) the property admits.  A crossing within the 2 s exemption of the epoch itself may lie on
+    either side of it (the element set's revolution number then belongs to the orbit that starts AT that crossing, which
+    is how the code reads it: |z| < 1 km at epoch with northward velocity makes the epoch the node time) -- the
+    property's tolerance on where a crossing is applies to that crossing as it does to every other."""
+    out = {expected_count(tc, s)}
+    for c in tc[np.abs(tc) <= 2.0]:
+        if c > 0 and s < 0:      # read the crossing as "at or before epoch": one more crossing between s and epoch
+            out.add(expected_count(tc, s, pivot=float(c)))
+        elif c > 0:              # s >= 0: the crossing just after epoch is the epoch's own
+            out.add(expected_count(tc, s, pivot=float(c)))
+        else:                    # crossing just before epoch read as "after": pivot just below it
+            out.add(expected_count(tc, s, pivot=float(c) - 1e-9))
+    return out
 
 
 def orbit_number_checks(ctx, rng, tle, ti, floats_out):
@@ -232,7 +248,7 @@ def orbit_number_checks(ctx, rng, tle, ti, floats_out):
         if n_f < 0:
             continue                                   # int() truncates toward zero: below zero the two clauses of the property disagree
         want = rev + expected_count(tc, s)
-        if n_int != want:
+        if n_int not in {rev + k for k in expected_counts(tc, s)}:
             ecc, inc = float("0." + tle[1][26:33]), float(tle[1][8:16])
             # KNOWN class (known_findings.json): eccentric orbits close to the equatorial plane, where the node-to-node
             # interval is modulated by apsidal rotation; only moderate errors fall under it, gross ones keep a per-input signature
